@@ -15,7 +15,8 @@ def run(tier, seed):
                        "database is a dict-like in-memory mapping"]
     P = ("C01",)
     for prune in (False, True):
-        run_hex(rep, f"H7xSL direct prune={prune}", universe="H7", values=("S", "L"), prune=prune, props=P, forms=("m", "i"))
+        run_hex(rep, f"H7xSL direct prune={prune}", universe="H7", values=("S", "L"), prune=prune, props=P, forms=("m",))
+        run_hex(rep, f"H4xSL direct, method and item syntax prune={prune}", universe="H4", values=("S", "L"), prune=prune, props=P, forms=("m", "i"))
         run_hex(rep, f"H5xSL batch<=1 prune={prune}", universe="H5", values=("S", "L"), prune=prune, props=P, batch_len=1,
                 exits=("commit", "abort"))
         run_hex(rep, f"HW4xSL direct prune={prune} (slots 0 and 15, branch value)", universe="HW4", values=("S", "L"), prune=prune, props=P)
